@@ -191,6 +191,20 @@ def step_payload_ok(name, doc, step):
     return True
 
 
+def step_payload_ok_loose(name, doc, step):
+    """payload validity for steps whose positions may be malformed: the slice / mark / attribute payload
+    is still required to be schema-valid (the property quantifies over well-formed payloads)"""
+    from prosemirror.transform import ReplaceAroundStep, ReplaceStep
+
+    S, O = D.schema(name)
+    if isinstance(step, (ReplaceStep, ReplaceAroundStep)):
+        try:
+            return slice_ok(O, step.slice)
+        except Exception:  # noqa: BLE001
+            return False
+    return True
+
+
 def step_positions_ok(doc, step):
     size = doc.content.size
     for a in ("from_", "to", "gap_from", "gap_to", "pos"):
